@@ -5,4 +5,5 @@ Extraction "model.ml" drv_b2n drv_n2b drv_z_of_n drv_n_of_z drv_nat_of_n drv_n_o
   mkVote mkAuth mkCommit entries tree_chain threshold
   handle_commit handle_commit_prefix verify_commit verify_commit_prefix
   get_equivocatory_voters supporter equivocator counted spec_count supermajority at_threshold
-  prop_holds returns_nil fin_calls vote_eqb.
+  prop_holds returns_nil fin_calls vote_eqb
+  mkFaults handle_commit_f freturns_nil tree_chain_h entry_fault strip.
